@@ -47,11 +47,26 @@ def build(cfg, values=None):
         elif variant == 'partition':
             cc.r2, cc.L = V('r2'), V('L')
             cc.alphadeg = V('alphadeg')
+            if cfg.get('after_other_settings'):
+                # the object was already rebuilt with OTHER prescribed-amplitude settings (flags and values defined later, as after
+                # add_SPL / a first analysis): the book-keeping must follow the current ones
+                cc.Fc = V('Fc')
+                cc.pdC, cc.pdT, cc.pdLA = (not cfg['pd'][0]), (not cfg['pd'][1]), True
+                cc.uTM, cc.thetaTdeg, cc.betadeg = V('uTM_before'), V('thetaTdeg_before'), V('betadeg_before')
+                cc._rebuild()
             cc.pdC, cc.pdT, cc.pdLA = cfg['pd']
             cc.uTM, cc.thetaTdeg, cc.betadeg = V('uTM'), V('thetaTdeg'), V('betadeg')
             cc._rebuild()
             size = cc.get_size()
-            ex = sorted(cc.excluded_dofs)
+            # which amplitudes are prescribed, and to what, follows from the CURRENT flags and values (not from the object's own list)
+            want = [(0, cc.uTM)] * bool(cfg['pd'][0]) + [(1, ctx.deg2rad(cc.thetaTdeg))] * bool(cfg['pd'][1]) + [(2, getattr(cc, 'LA', None))] * bool(cfg['pd'][2])
+            got = list(zip(cc.excluded_dofs, cc.excluded_dofs_ck))
+            obs.append(('prescribed-amplitudes-count', Sym.lift(len(got)), Sym.lift(len(want))))
+            for (i1, v1), (i2, v2) in zip(got, want):
+                obs.append(('prescribed-amplitude-index[%d]' % i2, Sym.lift(i1), Sym.lift(i2)))
+                if v2 is not None and v1 is not None:
+                    obs.append(('prescribed-amplitude-value[%d]' % i2, Sym.lift(v1), Sym.lift(v2)))
+            ex = sorted(i for i, _ in want)
             K = sym_matrix('K', size, list(range(size)), V, symmetric=False)
             out = cc.exclude_dofs_matrix(ShimCOO(K), return_kkk=True, return_kku=True, return_kuk=True)
             Kd = dense_of(K)
@@ -223,6 +238,7 @@ def configs(tier, seed):
     models = ['clpt_donnell_bc1', 'clpt_donnell_bc2'] if quick else list(COMMONS)
     for pd in ((False, False, True), (True, False, True), (False, True, True), (True, True, True)):
         out.append({'variant': 'partition', 'pd': pd, 'mn': (1, 1, 1), 'group': 'partition:pdC=%d,pdT=%d' % pd[:2], 'm': 1, 'n': 1})
+        out.append({'variant': 'partition', 'pd': pd, 'mn': (1, 1, 1), 'after_other_settings': True, 'group': 'partition-after-other-settings:pdC=%d,pdT=%d' % pd[:2], 'm': 1, 'n': 1})
         for model in models:
             out.append({'variant': 'fext', 'pd': pd, 'model': model, 'mn': (1, 1, 1) if quick else (2, 1, 2), 'group': 'fext:%s:pdC=%d,pdT=%d' % ((model,) + pd[:2]), 'm': 1, 'n': 1,
                         'timeout_ms': 120000})
